@@ -384,7 +384,15 @@ func VerifyFunc(pr *Prog, eff *Effects, fi *FuncInfo, opts VerifyOpts) (rep *Fun
 		}
 		for _, ls := range spec.Loops {
 			if !ls.Matched {
-				rep.Err = fmt.Sprintf("spec-error: loop contract %q of %s matches no loop", ls.Key, fi.Key)
+				// a loop contract none of whose clauses belongs to the view at hand is not needed by this property:
+				// the loop may have moved into a helper; only the properties that use its invariants must notice
+				used := ls.Decr != nil && ls.Decr.inView(x.view)
+				for _, c := range ls.Invs {
+					used = used || c.inView(x.view)
+				}
+				if used {
+					rep.Err = fmt.Sprintf("spec-error: loop contract %q of %s matches no loop", ls.Key, fi.Key)
+				}
 			}
 		}
 	}
